@@ -89,7 +89,8 @@ def emit(ts, rnd, base_indent, stats):
             adjacent = (prev.end == t.start)
             sep = '' if adjacent else ' '
             if (depth > 0 and fdepth == 0 and rnd.random() < 0.15 and t.type != FM and prev.type not in (FS, FM)):
-                sep = '\n' + ' ' * (base_indent + rnd.randint(0, 12))
+                # inside brackets the continuation may start anywhere, also left of the statement's own indentation
+                sep = '\n' + ' ' * (rnd.randint(0, base_indent + 12) if rnd.random() < 0.3 else base_indent + rnd.randint(0, 12))
                 stats['broken'] = stats.get('broken', 0) + 1
             elif not adjacent and fdepth == 0 and rnd.random() < 0.1:
                 sep = '  '
